@@ -48,6 +48,7 @@ type Contract struct {
 	Decreases *Clause // function-level measure (recursion)
 	Emits     []EmitSpec // ghost events this function appends (assumed at call sites)
 	WF       []string // heap specs for which heap well-formedness axioms are emitted
+	CheckFacts bool   // "checkfacts": a run-time check turned into an obligation is a fact for the rest of the path (see oblige)
 	AppendFacts bool  // "appendfacts": emit the derived prefix facts of every append in this function (see doAppend)
 	Ghosts   []GhostDef // ghost integer constants (see "ghost" in loadFile)
 	Partial  bool // partial correctness: self-recursion without a measure is reported instead of being an obligation
@@ -385,6 +386,14 @@ func (cs *ContractSet) loadFile(path string) error {
 				cs.GhostNames = map[string]bool{}
 			}
 			cs.GhostNames[fs[0]] = true
+		case "checkfacts":
+			// checkfacts: after a run-time check (nil, index, slice bounds, ...) has been emitted as an obligation it is a fact
+			// for the rest of the path - the continuation only runs if the check passed (a failing check is reported by its
+			// own obligation). Program semantics, not an assumption; opt-in because it adds one assertion per check.
+			if cur == nil {
+				return fmt.Errorf("%s:%d: checkfacts outside func", path, r.line)
+			}
+			cur.CheckFacts = true
 		case "assume-no-panic":
 			// the function's own run-time checks are assumed to pass: the contract speaks about the executions
 			// that do not panic (frame and postconditions); reported as an assumption
